@@ -123,6 +123,9 @@ func genVC(P *Program, C *Contracts, S *Sorts, key string, pure map[*ssa.Functio
 			}
 		}
 	}
+	if ct.NoPanicAssumed {
+		ex.note("assumed (not proved): " + key + " does not panic")
+	}
 	for _, fv := range fn.FreeVars {
 		v := f.havocVal(fv.Type(), "fv."+fv.Name())
 		v.NF = true
@@ -200,7 +203,7 @@ func genVC(P *Program, C *Contracts, S *Sorts, key string, pure map[*ssa.Functio
 			}
 			f.oblige("panic_value", kind+"."+anchor, implies(cond, claim), pvt, ct.PanicValue.Src)
 		}
-		if ct.MayPanic {
+		if ct.MayPanic || ct.NoPanicAssumed {
 			return
 		}
 		f.oblige(kind, anchor, implies(cond, panicsCond), ptags, "")
